@@ -235,12 +235,12 @@ PROPS = {
         "explanation": "theorems: specification = union of the products, order/duplicate independence, counterexample for the original make_consistent seed; point-wise correspondence of the three real paths",
     },
     "C10": {
-        "trusted_base": COMMON_TB + ["specification-level model (point-set semantics, validity predicates); the Rust 2-D state machines are not transliterated: agreement is established point by point on a grid of representative instants/positions over an 8 x 4 cell universe"],
+        "trusted_base": COMMON_TB + ["point-set specification + validity predicates, AND a transliteration of Ranges2D::merge (Model/Merge2D.lean: the two cursors with parity are rendered as event lists carrying the state after each bound; the two output stacks zipped at the end as one stack of closed segments plus the open one): the rendering is validated by EXACT agreement of the entries with the real union / intersection / difference on every generated pair (op st_merge); the two folds are modelled at code level too"],
         "assumptions": COMMON_ASSUME + ["the CLI and store entry points are compositions of the functions driven here (driven under C13/C19)"],
         "rule": "random valid flat ST-MOC pairs over 8 x 4 cells (equal, empty, random): union / intersection / difference of the Ranges2D algebra against the point-wise specification + validFlatB on "
                 "every result; time fold and space fold against their specifications; lookups (flat `contains` and `RangeMOC2::contains_val`) at grid points incl. boundaries shared by consecutive "
                 "time ranges. distinct_nontrivial = distinct op lines with a non-empty operand.",
-        "explanation": "theorems: point-wise Boolean combinations, intersection product form, fold semantics (range reading = instant reading), half-open lookup; correspondence of the real code",
+        "explanation": "theorems: point-wise Boolean combinations, intersection product form, fold semantics (range reading = instant reading) and the folds as computed, half-open lookup, and the transliterated sweep Ranges2D::merge = point-wise operation + valid flat form for all well-formed operands; correspondence of the real code (grid + exact entries)",
     },
 }
 
